@@ -54,6 +54,11 @@ abbrev M := Except Stop
 def fail {α : Type} (e : Err) : M α := .error (.err e)
 def unsup {α : Type} (w : String) : M α := .error (.unsup w)
 
+/-- `if c then throw e` -/
+def check (c : Bool) (e : Err) : M Unit := if c then fail e else pure ()
+/-- leave the modelled fragment if `c` -/
+def checkU (c : Bool) (w : String) : M Unit := if c then unsup w else pure ()
+
 /-- What the probe reports from inside the running runtime. -/
 structure Report where
   workers : Nat
@@ -217,12 +222,18 @@ def tokenize (table : List OptRow) : Nat → Parsed → List String → M Parsed
 def charsPlain (s : String) : Bool :=
   s.toList.all (fun c => c != '"' && c != '\'' && c != '\\' && c != '\t' && c != '\n' && c != ' ')
 
+/-- split at every blank (structural, so that the kernel can evaluate it) -/
+def splitBlank : List Char → List Char → List String
+  | cur, [] => [String.ofList cur.reverse]
+  | cur, ' ' :: rest => String.ofList cur.reverse :: splitBlank [] rest
+  | cur, c :: rest => splitBlank (c :: cur) rest
+
 /-- `prepend_options`: `PIKA_COMMANDLINE_OPTIONS` split at blanks (no quoting in the model). -/
 def splitPrepend (s : String) : M (List String) :=
   if s.isEmpty then pure []
   else if s.toList.any (fun c => c == '"' || c == '\\' || c == '\t' || c == '\'') then unsup "quoting in PIKA_COMMANDLINE_OPTIONS"
   else
-    let ts := s.splitOn " "
+    let ts := splitBlank [] s.toList
     if ts.any (·.isEmpty) then unsup "repeated blanks in PIKA_COMMANDLINE_OPTIONS" else pure ts
 
 /-! ## variables_map (store): single-valued options may occur once, typed values are validated -/
@@ -237,19 +248,23 @@ def kindOf (name : String) : OptKind :=
   | some r => r.kind
   | none => .flag
 
+/-- typed option values are validated when stored -/
+def valueCheck (n v : String) : M Unit :=
+  match kindOf n with
+  | .nat | .natOpt _ =>
+    match parseNat v with
+    | .ok _ => pure ()
+    | .bad => fail .badOptValue
+    | .odd => unsup s!"number '{v}'"
+  | .int => unsup "integer option"
+  | _ => pure ()
+
 def storeCheck : List String → List (String × String) → M Unit
   | _, [] => pure ()
   | seen, (n, v) :: rest =>
     if !composing n && seen.contains n then fail .multiple
     else do
-      match kindOf n with
-      | .nat | .natOpt _ =>
-        match parseNat v with
-        | .ok _ => pure ()
-        | .bad => fail .badOptValue
-        | .odd => unsup s!"number '{v}'"
-      | .int => unsup "integer option"
-      | _ => pure ()
+      valueCheck n v
       storeCheck (n :: seen) rest
 
 /-- The view of the parsed command line and the environment used by `handle_arguments`. -/
@@ -261,7 +276,7 @@ structure Vm where
 def mkVm (occ : List (String × String)) (env : List (String × String)) : Vm where
   opt n := (occ.find? (fun p => p.1 == n)).map (·.2)
   multi n := (occ.filter (fun p => p.1 == n)).map (·.2)
-  env v := (env.find? (fun p => p.1 == v)).map (·.2)
+  env := fun v => (env.find? (fun p => p.1 == v)).map (·.2)
 
 def Vm.count (vm : Vm) (n : String) : Bool := (vm.opt n).isSome
 
@@ -315,6 +330,14 @@ def handleStr (vm : Vm) (o k : String) : String :=
   | some v => v
   | none => (cfgGet (vm.multi "pika:ini") k).getD (rtGet vm.env k)
 
+/-- The value selected for a row of the settings table by the documented precedence:
+    command-line option, else `--pika:ini` definition (cfgmap), else environment variable, else
+    the built-in default (the last two through the `${ENV:default}` line of the default ini). -/
+def rawValue (vm : Vm) (s : Setting) : String :=
+  match s.opt.bind vm.opt with
+  | some v => v
+  | none => (cfgGet (vm.multi "pika:ini") s.key).getD (rtGet vm.env s.key)
+
 /-- `cfgmap.get_value<std::size_t>(key, get_entry_as<std::size_t>(rtcfg_, key, d))`
     (`none` = `std::size_t(-1)`): malformed numbers silently fall back. -/
 def cfgRtNat (vm : Vm) (k : String) (d : Option Nat) : M (Option Nat) := do
@@ -357,7 +380,7 @@ def handleThreads (m : Machine) (vm : Vm) (useMask : Bool) : M Nat := do
       if t == 0 then fail .zeroThreads else pure t
     | none => pure threads0)
   let minThreads ← cfgNat inis "pika.force_min_os_threads" threads1
-  if minThreads == 0 then fail .zeroMinThreads
+  check (minThreads == 0) .zeroMinThreads
   pure (max threads1 minThreads)
 
 /-- `handle_num_cores` (note: the ini entry `pika.cores = ${PIKA_CORES:all}` is never read) -/
@@ -396,19 +419,19 @@ def handleArguments (m : Machine) (vm : Vm) : M Resolved := do
   let ipm ← cfgNat inis "pika.ignore_process_mask" ipmDefault
   let useMask := !(ipm > 0 || vm.count "pika:ignore-process-mask")
   -- process mask: not modelled
-  if !(handleStr vm "pika:process-mask" "pika.process_mask").isEmpty then unsup "process mask"
+  checkU (!(handleStr vm "pika:process-mask" "pika.process_mask").isEmpty) "process mask"
   let scheduler := handleStr vm "pika:scheduler" "pika.scheduler"
   let affinity := handleStr vm "pika:affinity" "pika.affinity"
-  if !affinityDomainOk affinity then fail .badAffinity
+  check (!affinityDomainOk affinity) .badAffinity
   -- handle_affinity_bind
   let bind0 := if (vm.multi "pika:bind").isEmpty then
       (cfgGet inis "pika.bind").getD (rtGet vm.env "pika.bind")
     else ";".intercalate (vm.multi "pika:bind")
   let puStep ← handleNat vm "pika:pu-step" "pika.pu_step" (some 1)
   let puStep := puStep.getD 1
-  if m.pus > 1 && (puStep == 0 || puStep ≥ m.pus) then fail .puStep
+  check (m.pus > 1 && (puStep == 0 || puStep ≥ m.pus)) .puStep
   let puOffset ← handleNat vm "pika:pu-offset" "pika.pu_offset" none
-  if (match puOffset with | some o => decide (o ≥ m.pus) | none => false) then fail .puOffset
+  check ((match puOffset with | some o => decide (o ≥ m.pus) | none => false)) .puOffset
   -- handle_numa_sensitive
   let numa ← (match vm.opt "pika:numa-sensitive" with
     | some v => do
@@ -418,8 +441,7 @@ def handleArguments (m : Machine) (vm : Vm) : M Resolved := do
       let d ← cfgRtNat vm "pika.numa_sensitive" (some 0)
       pure (d.getD 0))
   let bind := if puStep == 1 && puOffset.isNone && bind0.isEmpty then "balanced" else bind0
-  if !bind.isEmpty && (!(puOffset.isNone || puOffset == some 0) || puStep != 1 || affinity != "pu") then
-    fail .bindConflict
+  check (!bind.isEmpty && (!(puOffset.isNone || puOffset == some 0) || puStep != 1 || affinity != "pu")) .bindConflict
   let threads ← handleThreads m vm useMask
   let cores ← handleCores m vm useMask threads
   pure { useMask, scheduler, affinity, bind, puStep, puOffset, numa, threads, cores, hp := none }
@@ -431,16 +453,16 @@ def handleHp (vm : Vm) (r : Resolved) : M Resolved :=
   match vm.opt "pika:high-priority-threads" with
   | some v => do
     let n ← natThrow v
-    if n > r.threads then fail .hpThreads
-    if !(r.scheduler == "local-priority" || r.scheduler == "abp-priority") then fail .hpSched
+    check (n > r.threads) .hpThreads
+    check (!(r.scheduler == "local-priority" || r.scheduler == "abp-priority")) .hpSched
     pure { r with hp := some n }
   | none => pure r
 
 /-! ## final configuration (rtcfg_ after `reconfigure(ini_config_)`) -/
 
-def setKey (cfg : List (String × String)) (k v : String) : List (String × String) :=
-  if cfg.any (fun p => p.1 == k) then cfg.map (fun p => if p.1 == k then (k, v) else p)
-  else cfg ++ [(k, v)]
+def setKey : List (String × String) → String → String → List (String × String)
+  | [], k, v => [(k, v)]
+  | a :: t, k, v => if a.1 == k then (k, v) :: t else a :: setKey t k v
 
 /-- the default ini with the environment expanded (only `${ENV:default}` and literal rows) -/
 def baseCfg (env : String → Option String) : List (String × String) :=
@@ -462,6 +484,16 @@ def applyInis : List (String × String) → List String → M (List (String × S
       else if !charsPlain v || !charsPlain k || v.toList.any (· == '$') then unsup "ini value syntax"
       else if !forced && !cfg.any (fun p => p.1 == k) then fail .iniUnknownKey
       else applyInis (setKey cfg k v) rest
+
+/-- the last `--pika:ini` definition of key `k` (the ini tree: last assignment wins) -/
+def lastIni : List String → String → Option String
+  | [], _ => none
+  | s :: rest, k =>
+    match lastIni rest k with
+    | some v => some v
+    | none => match splitIni s with
+      | some (k0, v) => if (stripBang k0).1 == k then some v else none
+      | none => none
 
 def natStr (n : Nat) : String := toString n
 
@@ -503,53 +535,79 @@ def lateGlue (pre argv : List String) : Option (List String) :=
   | last :: revInit, a :: rest => some (revInit.reverse ++ [last ++ a] ++ rest)
   | _, _ => none
 
-def resolveM (m : Machine) (inp : Input) : M Report := do
-  let envf := fun v => (inp.env.find? (fun p => p.1 == v)).map (·.2)
-  let pre ← splitPrepend ((envf "PIKA_COMMANDLINE_OPTIONS").getD "")
+def envFun (env : List (String × String)) : String → Option String :=
+  fun v => (env.find? (fun p => p.1 == v)).map (·.2)
+
+/-- Stage 1 (`call`, first `parse_commandline`): prepend `PIKA_COMMANDLINE_OPTIONS`, tokenize,
+    store.  Returns the prepended tokens and the parsed command line. -/
+def parseStage (inp : Input) : M (List String × Parsed) := do
+  let pre ← splitPrepend ((envFun inp.env "PIKA_COMMANDLINE_OPTIONS").getD "")
   let args := pre ++ inp.argv
-  if !args.all charsPlain then unsup "argument syntax"
+  checkU (!args.all charsPlain) "argument syntax"
   let p ← tokenize cliOpts (args.length + 1) Parsed.empty args
   storeCheck [] p.occ
-  if p.occ.any (fun o => !supportedOpts.contains o.1) then unsup "option outside the model"
-  if !p.pos.all (fun a => a.toList.all (· != '=')) then unsup "positional with ="
-  let vm := mkVm p.occ inp.env
+  checkU (p.occ.any (fun o => !supportedOpts.contains o.1)) "option outside the model"
+  checkU (!p.pos.all (fun a => a.toList.all (· != '='))) "positional with ="
+  pure (pre, p)
+
+/-- Stage 2 (`handle_arguments` twice, `reconfigure`): the resolved settings and the final
+    configuration tree of the runtime. -/
+def configure (m : Machine) (vm : Vm) : M (Resolved × List (String × String)) := do
   let r ← handleArguments m vm
   -- rtcfg_.reconfigure(cfg): ini definitions from the command line
   let cfg0 ← applyInis (baseCfg vm.env) (vm.multi "pika:ini")
   let r ← handleHp vm r
-  let cfg := writeBack cfg0 r
-  -- affinity_data::init / parse_affinity_options read the final configuration
-  let avail := if r.useMask then m.maskPus else m.pus
-  let bind := cfgLookup cfg "pika.bind"
-  if !(bind == "none" || distributions.contains bind) then unsup s!"bind '{bind}'"
-  if bind != "none" && r.threads > avail then fail .tooManyThreads
-  -- with the process mask ignored, a core limit below the machine's core count drives the
-  -- distribution loops of parse_affinity_options (C15); the pinned tree can spin forever there
-  if bind != "none" && !r.useMask && r.cores < m.cores then unsup "core limit with ignored process mask"
-  if r.threads > 64 then unsup "more than 64 threads"
-  -- partitioner::setup_schedulers
-  let policy ← (match schedulerPolicy r.scheduler with
-    | some p => pure p
-    | none => fail .badScheduler)
-  let stack ← parseStack (cfgLookup cfg "pika.stacks.small_size")
-  let stackDflt ← parseStack ((findRow "pika.stacks.small_size").map (·.dflt) |>.getD "")
-  let stackSmall := (stack.getD (stackDflt.getD 0))
-  if stackSmall < 16384 || stackSmall > 1048576 || stackSmall % 4096 != 0 then unsup "extreme or unaligned stack size"
-  -- late command-line handling
-  let allowUnknown := cfgLookup cfg "pika.commandline.allow_unknown" != "0"
-  if !p.unreg.isEmpty && !allowUnknown then fail .unknownOption
-  -- second part of the late handling: the command line is re-assembled from the ini entries
+  pure (r, writeBack cfg0 r)
+
+/-- the late re-parse of the re-assembled command line -/
+def lateCheck (pre argv : List String) : M Unit :=
+  -- the command line is re-assembled from the ini entries
   -- pika.commandline.{command,prepend_options,options}; the leading blank of `options` is lost
   -- when the entry is stored, so the last prepended token and argv[1] are glued together
-  match lateGlue pre inp.argv with
+  match lateGlue pre argv with
   | some late =>
     match (do let q ← tokenize cliOpts (late.length + 1) Parsed.empty late; storeCheck [] q.occ) with
     | .ok _ => pure ()
     | .error (.err _) => fail .lateParse
     | .error (.unsup w) => unsup w
   | none => pure ()
-  pure { workers := if bind == "none" then min r.threads m.pus else r.threads,
+
+/-- number of worker threads of the default pool -/
+def workersOf (m : Machine) (bind : String) (threads : Nat) : Nat :=
+  if bind == "none" then min threads m.pus else threads
+
+/-- Stage 3: what happens after command-line handling (affinity set-up, scheduler selection,
+    runtime start, late command-line handling, entry function). -/
+def startStage (m : Machine) (pre argv : List String) (p : Parsed) (r : Resolved)
+    (cfg : List (String × String)) : M Report := do
+  -- affinity_data::init / parse_affinity_options read the final configuration
+  let avail := if r.useMask then m.maskPus else m.pus
+  let bind := cfgLookup cfg "pika.bind"
+  checkU (!(bind == "none" || distributions.contains bind)) s!"bind '{bind}'"
+  check (bind != "none" && r.threads > avail) .tooManyThreads
+  -- with the process mask ignored, a core limit below the machine's core count drives the
+  -- distribution loops of parse_affinity_options (C15); the pinned tree can spin forever there
+  checkU (bind != "none" && !r.useMask && r.cores < m.cores) "core limit with ignored process mask"
+  checkU (r.threads > 64) "more than 64 threads"
+  -- partitioner::setup_schedulers
+  let policy ← (match schedulerPolicy (cfgLookup cfg "pika.scheduler") with
+    | some p => pure p
+    | none => fail .badScheduler)
+  let stack ← parseStack (cfgLookup cfg "pika.stacks.small_size")
+  let stackDflt ← parseStack ((findRow "pika.stacks.small_size").map (·.dflt) |>.getD "")
+  let stackSmall := (stack.getD (stackDflt.getD 0))
+  checkU (stackSmall < 16384 || stackSmall > 1048576 || stackSmall % 4096 != 0) "extreme or unaligned stack size"
+  -- late command-line handling
+  let allowUnknown := cfgLookup cfg "pika.commandline.allow_unknown" != "0"
+  check (!p.unreg.isEmpty && !allowUnknown) .unknownOption
+  lateCheck pre argv
+  pure { workers := workersOf m bind r.threads,
          policy, stackSmall, cfg, argv := entryArgv allowUnknown p }
+
+def resolveM (m : Machine) (inp : Input) : M Report := do
+  let (pre, p) ← parseStage inp
+  let (r, cfg) ← configure m (mkVm p.occ inp.env)
+  startStage m pre inp.argv p r cfg
 
 def resolve (m : Machine) (inp : Input) : Outcome :=
   match resolveM m inp with
